@@ -178,10 +178,40 @@ print([str(ev.evaluate('Sheet1!A%d' % i)) for i in range(1, 6)], ADDONE('1') == 
     return norm == exp, exp, out
 
 
+TEXT_FUNCS = {'LEN': lambda f, x: f(x), 'UPPER': lambda f, x: f(x), 'LOWER': lambda f, x: f(x), 'TRIM': lambda f, x: f(x),
+              'CONCAT': lambda f, x: f(x, '!'), 'CONCATENATE': lambda f, x: f('<', x), 'LEFT': lambda f, x: f(x, 9),
+              'RIGHT': lambda f, x: f(x, 9), 'EXACT': lambda f, x: f(x, 'True'), 'MID': lambda f, x: f(x, 1, 9),
+              'FIND': lambda f, x: f('1', x), 'REPLACE': lambda f, x: f(x, 1, 0, '>')}
+SEQUENCES = [[1, True, 1.0], [True, 1, 1.0], [1.0, True, 1], [0, False, 0.0], [False, 0.0, 0], [2, 2.0], [True, False, 1, 0]]
+
+
+def cases_text(tier, seed):
+    for f in TEXT_FUNCS:
+        for si in range(len(SEQUENCES)):
+            yield dict(kind='text-spellings', f=f, seq=si)
+
+
+def oracle_text(c):
+    """text parameters take numbers and booleans by their text form - whatever was converted before"""
+    from xlcalculator.xlfunctions import func_xltypes as t
+    fn = _funcs()[c['f']]
+    call = TEXT_FUNCS[c['f']]
+    bad = {}
+    for v in SEQUENCES[c['seq']]:
+        native = _outcome(lambda *a: call(fn, *a), [v])
+        obj = _outcome(lambda *a: call(fn, *a), [t.ExcelType.cast_from_native(v)])
+        if not _same(native, obj):
+            bad[repr(v)] = (native, obj)
+    return not bad, 'the native spelling gives what the library\'s value object gives', bad
+
+
 DRIVERS = [
     Driver('C08/B5.spellings', cases_matrix, oracle_matrix, nchunks=8, exhaustive=True,
            rule='every registered function with numeric parameters x every such position x values {1, 0, 2.5 or a function-specific base}: int, float, numpy int64/float64, Number[int/float], decimal text, Text object, scientific text, bool/Boolean (for 0/1), Blank (for 0) must all give the result of the plain float; non-numeric text ("abc", "x1", "1abc", " ") gives #VALUE!',
            bound='complete for the registered functions'),
+    Driver('C08/B5.text-spellings', cases_text, oracle_text, nchunks=2,
+           rule='12 text functions x 7 call sequences over natives that are equal in Python but different Excel values (1 / True / 1.0, 0 / False / 0.0): each native spelling must give what the corresponding value object gives, in every order of calls',
+           bound='fixed list'),
     Driver('C08/B5.formulas', cases_formulas, oracle_formulas, nchunks=2,
            rule='arithmetic on numeric text / booleans / blanks, & on mixed types, function names in any case and with the _xlfn. prefix, a user-registered function (fresh interpreter)', bound='fixed list'),
 ]
